@@ -10,7 +10,7 @@ TECH = 'Lean 4 theorems on a hand-written model + differential correspondence ch
 TECH_BR = ('Lean 4 theorems on a hand-written model + the anchored C++ functions translated to Lean from the working tree on every run '
            '(clang AST -> Lean definitions) with bridge theorems "translated = model" and headline theorems restated on the translated code '
            '+ differential correspondence check + property probe')
-BRIDGED = {'C01', 'C02', 'C03', 'C04', 'C05', 'C06', 'C07', 'C09', 'C10', 'C11', 'C12', 'C13', 'C14', 'C15', 'C16', 'C17', 'C18', 'C20'}
+BRIDGED = {'C01', 'C02', 'C03', 'C04', 'C05', 'C08', 'C06', 'C07', 'C09', 'C10', 'C11', 'C12', 'C13', 'C14', 'C15', 'C16', 'C17', 'C18', 'C20'}
 NOTE = 'Trusted: Lean kernel + {propext, Classical.choice, Quot.sound} (audited per theorem on every run); the hand-written model is tied to the C++ by a seeded differential test, not by proof; '
 CLAIMED = {
     'C05': ('proof', TECH,
